@@ -85,6 +85,8 @@ class CursorTranslator(Translator):
         raise KError("sizeof (%s) is not in the probed table" % q)
 
     def as_int(self, v):
+        if isinstance(v, Cur) and self.spec.get("malloc_cursor") == v.buf and v.off.lo == v.off.hi == 0:
+            return self.input("malloc_ret", "ptr")          # `if (!(buf = malloc (..)))`: the allocation's success
         if isinstance(v, (Cur, Addr)):
             raise KError("cursor / address used as an integer")
         return super().as_int(v)
@@ -319,12 +321,30 @@ class CursorTranslator(Translator):
             if fn == "__uint32_identity":
                 return v
             return E("rdBE32 %s %s" % (nat[0], nat[1].p()), 0, (1 << 32) - 1)
+        if fn == "strlen" and self.strip(args[0]).get("kind") == "StringLiteral":
+            return lit(len(self.find_string(args[0]) or ""))
+        if fn in ("strcpy", "__builtin_strcpy", "__builtin___strcpy_chk"):
+            d0 = self.rvalue(args[0], st)
+            txt = self.find_string(args[1])
+            if not isinstance(d0, Cur) or txt is None:
+                raise KError("strcpy that is not (cursor, string literal)")
+            names = self.spec.setdefault("_src_names", [])
+            lab = "literal:" + txt
+            if lab not in names:
+                names.append(lab)
+            st["events"].append('("wr", [%s, %d, 2, %d])' % (d0.off.s, len(txt) + 1, names.index(lab)))
+            return lit(1)
         if fn == "free" and self.spec.get("named_free"):
             st["events"].append('("free:%s", [])' % self.dst_name(args[0], st)[1])
             return lit(0)
         if fn == "malloc":
             sz = self.as_int(self.rvalue(args[0], st))
             st["events"].append('("malloc", [%s])' % sz.s)
+            if self.spec.get("malloc_cursor"):
+                if "malloc_ret" not in self.inputs:
+                    self.inputs["malloc_ret"] = "malloc_ret"
+                self.input("malloc_ret", "ptr")
+                return Cur(self.spec["malloc_cursor"], lit(0))
             return self.input("malloc_ret", "ptr") if "malloc_ret" in self.inputs else self._mk_input("malloc_ret")
         if fn == "m_msg_set_err" and self.spec.get("err_index"):
             code = self.as_int(self.rvalue(args[1], st))
@@ -343,10 +363,18 @@ class CursorTranslator(Translator):
                 if isinstance(v, Cur):
                     v = v.off
                 elif isinstance(v, Addr):
-                    raise KError("address argument recorded in an event")
+                    if v.lv[0] != "path":
+                        raise KError("address of a local recorded in an event")
+                    v = self.input(v.lv[1], "ptr")           # an array member handed over by address: named by its declared input
                 vals.append(self.as_int(v))
             st["events"].append('("%s", [%s])' % (fn, ", ".join(v.s for v in vals)))
+            sites0 = self.spec.setdefault("_sites", {}).setdefault(fn, [])
+            if n.get("id") not in sites0:
+                sites0.append(n.get("id"))
+            k0 = sites0.index(n.get("id"))
             for i, (nm, ct) in h[3].items():
+                if k0:
+                    nm = "%s_%d" % (nm, k0 + 1)
                 a = self.rvalue(args[i], st)
                 if not (isinstance(a, Addr) and a.lv[0] == "local"):
                     raise KError("out-parameter %d of %s is not the address of a local" % (i, fn))
